@@ -273,6 +273,8 @@ def check_C19(ctx, replay=None):
         "evaluations": hr.stats["evaluations"], "distinct_nontrivial": hr.stats["distinct_classes"],
         "classes_in_table": hr.stats.get("classes_in_table"), "classes_covered": hr.stats.get("classes_covered"),
         "fill_misses": hr.stats.get("fill_misses", 0),
+        "rule_divergences": {"accepted_where_the_rule_rejects": hr.stats.get("accepted_where_the_rule_rejects", 0),
+                             "rollover_count_differs_from_the_rule": hr.stats.get("rollover_count_differs_from_the_rule", 0)},
         "rule": "Space.tla transcribes the writer thread's space rule (admission on the estimate, rollover on the estimate, "
                 "SegmentFull on the stored size, rollover-and-rewrite when a non-empty segment turns out too full) and TLC checks "
                 "NoOverflow / AcceptedWithinOneRetry / AcceptedAtOnce for every fill level and every (estimate, stored) pair; the "
@@ -280,7 +282,9 @@ def check_C19(ctx, replay=None):
                 "expanded on a real Database: for each segment size x compression x payload kind (zeros, text, random) x 1-2 events "
                 "x payload length the stored size is measured, the live segment is filled with incompressible filler so that its "
                 "free space takes every value from min(estimate, stored)-2 to max+2 (strided in the middle of wide ranges), the "
-                "transaction is appended and outcome, rollover count and readability are compared with the table. evaluations = "
+                "transaction is appended; it must be accepted and readable (a rejection is retried twice and reported); an "
+                "acceptance the rule would not have granted, or a rollover it would not have made yet, is counted as a divergence "
+                "of the transcription (the statement asks for acceptance, not for a particular rollover policy). evaluations = "
                 "fill levels tried; distinct_nontrivial = table classes reached on the real code.",
     }
     return finish(ctx, "model_checking", cov,
